@@ -302,6 +302,9 @@ func init() {
 			}
 		}
 		add(C("XRANGE", k0, "a", "+"), C("XRANGE", k0, "-", "b"), C("XRANGE", k0, "-"), C("XRANGE", k0), C("XRANGE", k0, "(-", "+"))
+		// COUNT, and anything else after the bounds
+		add(C("XRANGE", k0, "-", "+", "COUNT", "1"), C("XRANGE", k0, "-", "+", "count", "2"), C("XRANGE", k0, "5-2", "+", "COUNT", "1"), C("XRANGE", k0, "-", "+", "COUNT", "0"),
+			C("XRANGE", k0, "-", "+", "COUNT", "-1"), C("XRANGE", k0, "-", "+", "COUNT", "x"), C("XRANGE", k0, "-", "+", "COUNT"), C("XRANGE", k0, "-", "+", "0"), C("XRANGE", k0, "-", "+", "LIMIT", "1"))
 		add(Op{AdvMs: 1}, Op{AdvMs: 1000})
 		seeds := []Seed{
 			{Name: "empty"},
